@@ -972,6 +972,120 @@ class _Concat(Op):
         return numpy.concatenate([v, w], axis=p[0])
 
 
+@op('getl')
+class _GetL(Op):
+    'x[..., i, ...] with a run-time scalar int index (typically a loop index)'
+    arity = 2
+
+    def params(self, t1, t2):
+        if t2 != ((), 'i'):
+            return []
+        return [(a,) for a in _axes(len(t1[0])) if t1[0][a] >= 2]
+
+    def ty(self, p, t1, t2):
+        if t2 != ((), 'i') or not 0 <= p[0] < len(t1[0]):
+            raise IllTyped
+        return t1[0][:p[0]] + t1[0][p[0] + 1:], t1[1]
+
+    def build(self, ev, p, x, i):
+        return ev.get(x, p[0], i)
+
+    def ref(self, p, v, i):
+        if not 0 <= int(i) < v.shape[p[0]]:
+            raise OutOfDomain
+        return numpy.take(v, int(i), axis=p[0])
+
+
+@op('raggedcat')
+class _RaggedCat(Op):
+    '''loop_concatenate over l<n of a chunk whose LENGTH depends on l: x[l:l+1 .. ] variants
+    variant 0: take(x, Range(l+1))            (chunk sizes 1,2,..,n; needs len(x) >= n)
+    variant 1: take(x, Range(l+1)) * (l+1.)   (loop index also in the values)
+    variant 2: take(x, Range(n-l))            (decreasing chunk sizes)'''
+
+    def params(self, t):
+        shape, k = t
+        if len(shape) != 1 or k != 'f' or shape[0] < 2:
+            return []
+        return [(name, shape[0], v) for v in (0, 1, 2) for name in ('r',)]
+
+    def ty(self, p, t):
+        shape, k = t
+        name, n, v = p
+        if len(shape) != 1 or k != 'f' or shape[0] < n:
+            raise IllTyped
+        return (n * (n + 1) // 2,), k
+
+    def build(self, ev, p, x):
+        name, n, v = p
+        i = ev.loop_index(name, ev.constant(n))
+        if v == 2:
+            chunk = ev.Take(x, ev.Range(ev.constant(n) - i))
+        else:
+            chunk = ev.Take(x, ev.Range(i + ev.constant(1)))
+            if v == 1:
+                chunk = chunk * ev.astype(i + ev.constant(1), float)
+        return ev.loop_concatenate(chunk, i)
+
+    def ref(self, p, val):
+        name, n, v = p
+        parts = []
+        for l in range(n):
+            if v == 2:
+                parts.append(val[:n - l])
+            else:
+                parts.append(val[:l + 1] * (l + 1. if v == 1 else 1.))
+        return numpy.concatenate(parts)
+
+
+@op('raggedsum')
+class _RaggedSum(Op):
+    '''loop_sum over l<n of an Inflate whose block size depends on l (the element-loop pattern of assembly):
+    sum_l inflate(take(x, Range(l+1)) [* take(x, Range(l+1))[:,None] for variant 1], Range(l+1)+shift_l, m)
+    variant 0: vector, dofs Range(l+1);  variant 1: matrix (outer product block), same dofs on both axes;
+    variant 2: vector, dofs Range(l+1)+ (n-1-l) (blocks right-aligned, so they overlap differently)'''
+
+    def params(self, t):
+        shape, k = t
+        if len(shape) != 1 or k != 'f' or shape[0] < 2:
+            return []
+        return [('r', shape[0], v) for v in (0, 1, 2)]
+
+    def ty(self, p, t):
+        shape, k = t
+        name, n, v = p
+        if len(shape) != 1 or k != 'f' or shape[0] < n:
+            raise IllTyped
+        return ((n, n) if v == 1 else (n,)), k
+
+    def build(self, ev, p, x):
+        name, n, v = p
+        i = ev.loop_index(name, ev.constant(n))
+        dofs = ev.Range(i + ev.constant(1))
+        chunk = ev.Take(x, dofs)
+        if v == 2:
+            dofs = dofs + (ev.constant(n - 1) - i)
+        if v == 1:
+            blk = ev.insertaxis(chunk, 1, chunk.shape[0]) * ev.insertaxis(chunk, 0, chunk.shape[0])
+            infl = ev._inflate(ev._inflate(blk, dofs, ev.constant(n), 1), dofs, ev.constant(n), 0)
+        else:
+            infl = ev._inflate(chunk, dofs, ev.constant(n), 0)
+        return ev.loop_sum(infl, i)
+
+    def ref(self, p, val):
+        name, n, v = p
+        out = numpy.zeros((n, n) if v == 1 else (n,))
+        for l in range(n):
+            c = val[:l + 1]
+            if v == 1:
+                out[:l + 1, :l + 1] += c[:, None] * c[None, :]
+            elif v == 2:
+                out[n - 1 - l:n] += c
+            else:
+                out[:l + 1] += c
+        return out
+
+
 # ------------------------------------------------------------------ interpretation
 
 def typeof(term, _memo=None):
@@ -1160,6 +1274,39 @@ def valuations(args, nsets=3, exhaustive_int=True):
         for c in combos:
             envs.append(dict(base, **c))
     return envs
+
+
+LOOP_L = ('loopidx', ('l', 3))
+LOOP_M = ('loopidx', ('m', 2))
+
+
+def loop_leaves(idx=LOOP_L):
+    'loop-dependent leaves for loop bodies'
+    b = A('b', (3,)) if idx[1][1] == 3 else A('a', (2,))
+    B = A('C', (3, 3)) if idx[1][1] == 3 else A('A', (2, 2))
+    return [('getl', (0,), b, idx),                       # scalar b[l]
+            ('getl', (0,), B, idx),                       # row B[l]
+            ('tofloat', (), idx),                         # float(l)
+            ('add', (), ('range', (2,)), idx),            # int vector Range(2)+l : dofmap / gather index
+            ('multiply', (), A('a', (2,)), ('tofloat', (), idx))]   # a*l
+
+
+def closures(term):
+    'all ways to bind the free loop indices of a term (sum / concatenate), innermost name first'
+    fv = sorted(freevars(term))
+    if not fv:
+        yield term
+        return
+    name = fv[0]
+    length = {'l': 3, 'm': 2}[name]
+    shape, kind = typeof(term)
+    outs = []
+    if kind != 'b':
+        outs.append(('loopsum', (name, length), term))
+    if shape:
+        outs.append(('loopcat', (name, length), term))
+    for o in outs:
+        yield from closures(o)
 
 
 # ------------------------------------------------------------------ enumeration
